@@ -476,15 +476,17 @@ def arity(repo: Repo, rep, P: str, mc):
         raise AnchorMissing("MultiCtl.macro")
     rep.func("rv.modules.multictl.MultiCtl.macro")
     passed = None
+    passed_e = None
     for c in walk_no_nested(macro):
         if isinstance(c, ast.Call):
             for kw in c.keywords:
-                if kw.arg == "mappings" and isinstance(kw.value, ast.Name):
-                    passed = kw.value.id
-    if passed is None:
+                if kw.arg == "mappings":
+                    passed_e = kw.value
+                    passed = norm(kw.value)[:60]
+    if passed_e is None:
         rep.inconclusive(f"{P}.R1", f"{rel}:MultiCtl.macro", "", "no `mappings=` argument found", f"{rel}:{macro.lineno}")
     else:
-        shape = _shape_of_name(repo, mc, macro, passed)
+        shape = _Shapes(repo, mc, macro).expr(passed_e)
         tuples = _element_tuples(shape)
         if tuples is None or not tuples:
             rep.inconclusive(f"{P}.R1", f"{rel}:MultiCtl.macro", passed, f"no append of mapping tuples found (shape {_show_shape(shape)})",
@@ -538,7 +540,7 @@ class _Shapes:
                                 shapes.append(v[1][i] if v[0] == "tup" and i < len(v[1]) else ("?", f"unpacking {norm(n.value)[:40]}"))
             if isinstance(n, ast.Call) and isinstance(n.func, ast.Attribute) and norm(n.func.value) == nm and n.func.attr == "append" and len(n.args) == 1:
                 shapes.append(("list", [self.expr(n.args[0])]))
-            if isinstance(n, (ast.For, ast.comprehension)):
+            if isinstance(n, ast.For):          # comprehension variables are local to their comprehension (bound in expr())
                 self._bind(n.target, n.iter, nm, shapes)
         for a in self.fn.args.args + self.fn.args.kwonlyargs:
             if a.arg == nm:
@@ -581,6 +583,21 @@ class _Shapes:
     def expr(self, e: ast.expr):
         if isinstance(e, ast.Tuple):
             return ("tup", [self.expr(x) for x in e.elts], e)
+        # (a, b, c) + (0,) * 5: tuple concatenation / repetition by a constant
+        if isinstance(e, ast.BinOp) and isinstance(e.op, ast.Add):
+            a, b = self.expr(e.left), self.expr(e.right)
+            if a[0] == "tup" and b[0] == "tup":
+                return ("tup", list(a[1]) + list(b[1]), e)
+        if isinstance(e, ast.BinOp) and isinstance(e.op, ast.Mult):
+            for seq, cnt in ((e.left, e.right), (e.right, e.left)):
+                sh = self.expr(seq) if isinstance(seq, ast.Tuple) else None
+                if sh is not None and sh[0] == "tup":
+                    try:
+                        k = self.repo.fold(cnt, ci=self.mc)
+                    except Exception:
+                        k = None
+                    if isinstance(k, int) and 0 <= k <= 64:
+                        return ("tup", list(sh[1]) * k, e)
         if isinstance(e, ast.List):
             return ("list", [self.expr(x) for x in e.elts])
         if isinstance(e, ast.Name):
@@ -698,12 +715,20 @@ def macro_guards(repo: Repo, rep, P: str, mc):
                         [m for m, lab in g.succ[d] if lab == "false"][0] if [m for m, lab in g.succ[d] if lab == "false"] else r.id, avoid={d}) :
                     tests[r.id] = dn
     count_guard = dup_guard = None
+    seen_form = False
     for rid, t in tests.items():
         txt = norm(t.ast)
         if "len(" in txt and ">" in txt and "set(" not in txt:
             count_guard = (g.nodes[rid], t)
         if "set(" in txt:
             dup_guard = (g.nodes[rid], t)
+        # seen-set form:  if mod in seen: raise …;  seen.add(mod)
+        if isinstance(t.ast, ast.Compare) and len(t.ast.ops) == 1 and isinstance(t.ast.ops[0], ast.In) and isinstance(t.ast.comparators[0], ast.Name):
+            sname, elem = t.ast.comparators[0].id, norm(t.ast.left)
+            if any(isinstance(c, ast.Call) and norm(c.func) == f"{sname}.add" and len(c.args) == 1 and norm(c.args[0]) == elem for c in ast.walk(fn)):
+                dup_guard = (g.nodes[rid], t)
+                seen_form = True
+    other_raises = [rid for rid in tests if (count_guard is None or rid != count_guard[0].id) and (dup_guard is None or rid != dup_guard[0].id)]
     # count guard
     if count_guard is None:
         rep.violation(f"{P}.R2", construct, "if len(mod_ctl_pairs) > 16: raise MappingError", "more than 16 targets are no longer refused", f"{rel}:{fn.lineno}")
@@ -730,17 +755,22 @@ def macro_guards(repo: Repo, rep, P: str, mc):
             rep.ok(f"{P}.R2", construct, r.text()[:80], "refusal precedes the creation of the module")
         else:
             rep.violation(f"{P}.R2", construct, r.text()[:80], "the project is modified before too many targets are refused", f"{rel}:{r.lineno}")
-    if dup_guard is None:
+    if dup_guard is None and (other_raises or len(raises) > len(tests)):
+        rep.inconclusive(f"{P}.R2", construct, "; ".join(norm(tests[x].ast) for x in other_raises)[:160] or "raise MappingError",
+                         "a MappingError is raised under a test that is not recognised as the duplicate-target refusal", f"{rel}:{fn.lineno}")
+    elif dup_guard is None:
         rep.violation(f"{P}.R2", construct, "if len(mods) != len(set(mods)): raise MappingError", "two targets on one module are no longer refused",
                       f"{rel}:{fn.lineno}")
     else:
         r, t = dup_guard
         txt = norm(t.ast).replace(" ", "")
-        if txt in ("len(mods)!=len(set(mods))", "len(set(mods))!=len(mods)", "len(set(mods))<len(mods)", "len(mods)>len(set(mods))"):
+        if seen_form:
+            rep.ok(f"{P}.R2", construct, f"if {norm(t.ast)}: raise MappingError", "duplicate target modules refused (seen-set)")
+        elif txt in ("len(mods)!=len(set(mods))", "len(set(mods))!=len(mods)", "len(set(mods))<len(mods)", "len(mods)>len(set(mods))"):
             rep.ok(f"{P}.R2", construct, f"if {norm(t.ast)}: raise MappingError", "duplicate target modules refused")
         else:
             rep.inconclusive(f"{P}.R2", construct, norm(t.ast), "duplicate-module test of an unrecognised form", f"{rel}:{t.lineno}")
-        if t.id in dom.get(create.id, set()):
+        if t.id in dom.get(create.id, set()) or r.id not in g.reachable(create.id):
             rep.ok(f"{P}.R2", construct, r.text()[:80], "refusal precedes the creation of the module")
         else:
             rep.violation(f"{P}.R2", construct, f"{create.text()[:60]} … {r.text()[:60]}",
